@@ -164,6 +164,13 @@ func digestTerm(d []uint64) string {
 	return sb.String()
 }
 
+// isConn: the decoders that drive the real connection handler: hs (unregistered), hr (registered
+// directly), hq (sequence of connections), hf / hg (the same two for a device that was registered
+// through the FORWARDED path: its hello inside a Multi container of a registered peer, talkSub)
+func isConn(dec string) bool {
+	return len(dec) > 3 && dec[2] == ':' && dec[0] == 'h' && strings.IndexByte("srqfg", dec[1]) >= 0
+}
+
 var failCount = map[string]int{}
 
 // aliased: receive() cases in which the implementation wrote into its own input buffer (judged by
@@ -200,7 +207,7 @@ func allocKey(dec string) string {
 	case "bytesS", "strlistS":
 		return "stream-bytes-alloc"
 	}
-	if (strings.HasPrefix(dec, "hs:") || strings.HasPrefix(dec, "hr:") || strings.HasPrefix(dec, "hq:")) && (strings.Contains(dec, "zlib") || strings.Contains(dec, "gzip")) {
+	if isConn(dec) && (strings.Contains(dec, "zlib") || strings.Contains(dec, "gzip")) {
 		return "inflate-alloc" // the connection handler behind a compressing wrapper
 	}
 	return dec + "-alloc"
@@ -221,7 +228,7 @@ func run(dec string, in []byte, class string) resp {
 		return resp{Class: "skipped"}
 	}
 	r := wk.call(dec, in)
-	if (strings.HasPrefix(dec, "hs:") || strings.HasPrefix(dec, "hr:") || strings.HasPrefix(dec, "hq:")) && r.Class != "dead" && r.Class != "hang" && r.Alloc > thr(len(in))+r.Base {
+	if isConn(dec) && r.Class != "dead" && r.Class != "hang" && r.Alloc > thr(len(in))+r.Base {
 		// a whole connection: pooled buffers and writers (sync.Pool) are re-allocated after a
 		// garbage collection, which is noise of up to a few MB; an allocation that is out of
 		// proportion repeats: the smallest of three runs is judged
@@ -256,10 +263,10 @@ func run(dec string, in []byte, class string) resp {
 		out.Add(fmt.Sprintf("C %s %s %s %d", c, vh.Bytes(in), o, cls), dec+"/"+class, nontrivial, desc)
 	} else if dec == "json" && r.Term != "" {
 		out.Add(r.Term, dec+"/"+class, nontrivial, desc)
-	} else if (dec == "recv" || dec == "recvseq") && r.Term == "ALIAS" {
+	} else if (dec == "recv" || dec == "recvseq" || dec == "recvseqf") && r.Term == "ALIAS" {
 		aliased++
 		out.Count(dec+"/"+class+"-aliased", k, nontrivial)
-	} else if (dec == "recv" || dec == "recvseq") && r.Class != "hang" {
+	} else if (dec == "recv" || dec == "recvseq" || dec == "recvseqf") && r.Class != "hang" {
 		o := "Panic"
 		switch r.Class {
 		case "ok":
@@ -273,6 +280,9 @@ func run(dec string, in []byte, class string) resp {
 		ctor := "CRecv"
 		if dec == "recvseq" {
 			ctor = "CRecvSeq"
+		}
+		if dec == "recvseqf" {
+			ctor, a = "CRecvSeqF", devQ()
 		}
 		out.Add(fmt.Sprintf("%s %s %s %s %d", ctor, vh.Bytes(a[:]), vh.Bytes(in), o, cls), dec+"/"+class, nontrivial, desc)
 	} else if strings.HasPrefix(dec, "b64:") && r.Class != "hang" {
@@ -300,7 +310,7 @@ func run(dec string, in []byte, class string) resp {
 	case "dead":
 		fail(dec+": the process died (fatal out-of-memory) on a "+strconv.Itoa(len(in))+"-byte input", allocKey(dec), desc)
 	case "hang":
-		fail(dec+" does not return (spins) on input bytes", dec+"-hang", desc)
+		fail("handler-spins: "+dec+" has consumed all its input and is still running after the 3 s deadline", dec+"-hang", desc)
 	default:
 		if cls == 1 {
 			fail(fmt.Sprintf("%s allocates %d bytes for a %d-byte input (allowed: %d)", dec, r.Alloc, len(in), thr(len(in))+r.Base), allocKey(dec), desc)
